@@ -116,6 +116,20 @@ let handle () =
     (match imain_run imax imin istop parts resf futf fuel with
      | Steps l -> "steps " ^ String.concat " ; " (List.map event l)
      | Raised l -> "raised " ^ String.concat " ; " (List.map event l))
+  | "ctx" ->
+    let b () = int () <> 0 in
+    let ir = b () in let hl = b () in let bc = b () in let sy = b () in let v = b () in let ns = b () in
+    let sh = { is_rule = ir; head_is_literal = hl; atom_is_boolconst = bc; atom_is_symbolic = sy; value = v; nosign = ns } in
+    let pl = (match next () with "HL" -> HeadLit | "HE0" -> HeadElem false | "HE1" -> HeadElem true | "HC0" -> HeadCond false | "HC1" -> HeadCond true
+              | "BL0" -> BodyLit false | "BL1" -> BodyLit true | "BC0" -> BodyCond false | "BC1" -> BodyCond true | s -> failwith ("place " ^ s)) in
+    let lead = nat () in let stem = nat () in let trail = nat () in let ini = b () in
+    (match decide sh pl lead stem trail ini with
+     | Accept (r, la, ts, tz) -> Printf.sprintf "accept %d %d %d %d" (if r then 1 else 0) (if la then 1 else 0) (int_of_z ts) (if tz then 1 else 0)
+     | RejectFuture -> "reject-future" | RejectPast -> "reject-past" | Raises -> "raises")
+  | "thctx" ->
+    let neg = int () <> 0 in let con = int () <> 0 in
+    let s = function None -> "raises" | Some true -> "reject" | Some false -> "accept" in
+    s (tel_ctx_reject_gen neg con) ^ " " ^ s (del_ctx_reject_gen neg con)
   | "defaults" ->
     Printf.sprintf "%d %s %s" (int_of_nat default_imin_gen)
       (match default_imax_gen with None -> "-" | Some m -> string_of_int (int_of_nat m))
